@@ -223,6 +223,12 @@ SetDtypeRefused(i, d) ==
     /\ d # pool[i].dtype
     /\ UNCHANGED <<pool, ghost>>
 
+(* h.frequencies = h.frequencies / 2; h.errors2 = h.errors2 / 4 through the public setters: only the two arrays change *)
+SetFreqHalf(i) ==
+    /\ Live /\ On("SetFreqHalf") /\ Has(i) /\ pool[i].den * 2 <= MaxVal
+    /\ pool' = [pool EXCEPT ![i] = [Rescale(pool[i], pool[i].den * 2) EXCEPT !.freq = pool[i].freq, !.err2 = pool[i].err2]]
+    /\ ghost' = [ghost EXCEPT ![i] = Untracked]
+
 (* i.name = v *)
 SetName(i, v) ==
     /\ Live /\ On("SetName") /\ Has(i) /\ pool[i].name # v
@@ -348,6 +354,7 @@ Next ==
     \/ \E s \in Seeds : NewRefused(s)
     \/ \E i \in Ids, d \in SetDtypes : SetDtype(i, d) \/ SetDtypeRefused(i, d)
     \/ \E i \in Ids, v \in {1, 2} : SetName(i, v)
+    \/ \E i \in Ids : SetFreqHalf(i)
     \/ \E i, k \in Ids, a \in MergeArgs, ip \in BOOLEAN : Merge(i, a, ip, k)
     \/ \E i, k \in Ids, ab \in SliceArgs : Slice(i, ab[1], ab[2], k)
     \/ \E i \in Ids, a \in MergeArgs, ip \in BOOLEAN : MergeRefused(i, a, ip)
